@@ -8,7 +8,10 @@
    removed and every template parameter of the specialisation replaced by `_`
    (e.g. `vector_repeater<V, row_major>` -> `vector_repeater<_,row_major>`, `M,vector_scalar_multiply<V>`
    -> `_,vector_scalar_multiply<_>`); a primary template that has a body gets the pattern `default`.
-   tools/c01_rules.py scrapes the header with the same canonicalisation and compares the two sets.
+   tools/c01_rules.py scrapes the header with the same canonicalisation and compares the two sets.  It also translates
+   the BODY of every specialisation (typedefs + create) and runs it next to the functions of this file (extracted,
+   fx = true) on instances of every rule: the two must build the same term, so an arm must mirror its C++ body
+   literally (index expressions, repetition counts, orientation of the result, argument order).
    Within one function the arms are in source order, except that (Coq matches are first-match) the
    primary template (`default`) is the last arm and, in opt_mvprod/opt_mmprod, the most specialised
    pattern <matrix_scalar_multiply,*_scalar_multiply> comes before the two it refines.
